@@ -741,11 +741,22 @@ type verifReader struct {
 	calls    int
 	maxCalls int
 	whole    bool // deliver everything asked for, never fail
+	trickle  bool // one byte per read, after `idle` reads that deliver nothing
+	idle     int
 }
 
 func (r *verifReader) Read(p []byte) (int, error) {
 	c := r.calls
 	r.calls++
+	if r.trickle {
+		if c < r.idle || len(p) == 0 {
+			return 0, nil
+		}
+		verifAssume(r.pos < len(r.stream))
+		p[0] = r.stream[r.pos]
+		r.pos++
+		return 1, nil
+	}
 	if r.whole {
 		verifAssume(r.pos+len(p) <= len(r.stream))
 		n := copy(p, r.stream[r.pos:r.pos+len(p)])
@@ -790,6 +801,24 @@ func H_C06(lg Language, n int, R int) {
 		verifAssert(got == "", "error-gives-empty-string")
 		verifAssert(r.pos < L, "error-only-if-source-short")
 	}
+	verifReach("end")
+}
+
+// the longest fragmentation: one byte per read, preceded by z reads that deliver nothing
+// (4n/3 + z Read calls; the fragment sizes are fixed, the delivered bytes are symbolic)
+func H_C06_trickle(lg Language, n int, z int) {
+	L := n + n/3
+	stream := verifBytes("s", L+2)
+	r := &verifReader{stream: stream, trickle: true, idle: z}
+	old := {{READER}}
+	{{READER}} = r
+	got, err := NewMnemonic(n, lg)
+	{{READER}} = old
+	verifObserve("got", got)
+	verifObserveInt("delivered", r.pos)
+	verifAssert(err == nil, "trickling-source-succeeds")
+	verifAssert(r.pos == L, "exactly-4n/3-bytes-consumed")
+	verifAssert(got == specSentence(lg, stream[:L]), "sentence-from-stream-prefix")
 	verifReach("end")
 }
 
@@ -1415,6 +1444,7 @@ var verifHarnesses = map[string]func(a []int64){
 	"H_C10_pre":         func(a []int64) { H_C10_pre(Language(a[0]), int(a[1])) },
 	"H_C10_spelled":     func(a []int64) { H_C10_spelled(Language(a[0]), int(a[1]), int(a[2])) },
 	"H_C06":             func(a []int64) { H_C06(Language(a[0]), int(a[1]), int(a[2])) },
+	"H_C06_trickle":     func(a []int64) { H_C06_trickle(Language(a[0]), int(a[1]), int(a[2])) },
 	"H_C07":             func(a []int64) { H_C07(Language(a[0]), int(a[1])) },
 	"H_C09_entropy":     func(a []int64) { H_C09_entropy(Language(a[0])) },
 	"H_C09_entropy_any": func(a []int64) { H_C09_entropy_any(Language(a[0])) },
